@@ -199,6 +199,32 @@ def random_jobs(rnd, table, n, nq, start):
     return jobs
 
 
+def completions(chk, pid, thorough, rnd):
+    '''first sentence of C18 on the producing side: spec/Sched.tla histories (deep one-target instance, two-target
+    withdrawal instance) run on the REAL farm.Hand._res -> schedule.complete -> chronicle.append path; clause
+    C18.CompletedOnce of Sched_Trace.tla: one record per completed unit, with its outcome, and no other'''
+    from checks import sched
+
+    focus = sched.leaves(sched.gen_focus_all(chk, 'Programs3Focus' if thorough else 'Programs3Quick'))
+    lean = sched.leaves(sched.gen_focus_all(chk, 'ProgramsChain', name='lean2t_all', maxrun=3, spec='GenSpecLean', targets=sched.TARGETS))
+    if not thorough:
+        rnd.shuffle(focus)
+        rnd.shuffle(lean)
+        fails = [s for s in lean if any(e['ev'] == 'Reply' and e['out'] == 'failure' for e in s['h'])]
+        focus, lean = focus[:1500], fails[:1500]
+    jobs = sched.to_jobs(focus + lean, start=10**6)
+    before = chk.traces
+    sched.validate_and_collect(chk, pid, [(sched.ALG3, jobs)])
+    chk.counters['scheduler_histories_for_completion_records'] = chk.traces - before
+    n = 0
+    for fn in os.listdir(chk.work):
+        if fn.startswith('sched_h.') and fn.endswith('.ndjson'):
+            with open(os.path.join(chk.work, fn)) as f:
+                for ln in f:
+                    n += ln.count('"status": "')
+    chk.counters['completions_recorded_by_the_scheduler'] = n
+
+
 def run(pid, tier, seed, replay=None):
     chk = core.Check(pid, tier, seed)
     rnd = random.Random(seed)
@@ -214,6 +240,11 @@ def run(pid, tier, seed, replay=None):
     if replay:
         with open(replay, 'rt', encoding='utf-8') as f:
             rp = json.load(f)['replay']
+        if 'algs' in rp:
+            from checks import sched
+
+            sched.validate_and_collect(chk, pid, [(rp['algs'], [rp['job']])])
+            return chk.finish('replay of one recorded scheduler history (completion records)')
         validate_and_collect(chk, pid, rp['cal'], [rp['job']])
         return chk.finish('replay of one recorded history + query')
     # 1. MC
@@ -290,8 +321,9 @@ def run(pid, tier, seed, replay=None):
     # 3 + 4
     for cal in SETS:
         validate_and_collect(chk, pid, cal, jobs[cal])
-    for k in ('append_lines', 'find_lines', 'api_lines', 'nonempty_answers', 'nonempty_offset_answers', 'truncated_answers'):
-        if not chk.counters.get(k):
+    completions(chk, pid, thorough, rnd)
+    for k in ('append_lines', 'find_lines', 'api_lines', 'nonempty_answers', 'nonempty_offset_answers', 'truncated_answers', 'completions_recorded_by_the_scheduler'):
+        if not chk.counters.get(k) and not chk.violations:
             raise core.Machinery(f'vacuous run: counter {k} is zero')
     return chk.finish(
         'histories = one append sequence per distinct state of the journal files of the bounded model (all of them), queries = the (after, before, limit, outcome, now) '
